@@ -25,6 +25,10 @@ pub trait Sample: Sized {
     /// Samples a single value using the [`OsRng`].
     #[inline]
     fn rand() -> Self {
+        #[cfg(feature = "verif_hooks")]
+        if let Some(v) = crate::verif_hooks::seeded_sample::<Self>() {
+            return v;
+        }
         Self::sample(&mut OsRng)
     }
 
